@@ -276,6 +276,17 @@ def run(ctx: Ctx) -> None:
                             versus_twin("RMSNorm", {**key, "input_scale": float(xs_.abs().max())}, m,
                                         nn.RMSNorm(list(ns), eps=eps, elementwise_affine=affine).to(dt), xs_, tol=2e-5)
                     check_tags("RMSNorm", key, m, {"weight": "norm"})
+                    if eps == 1e-5:
+                        # eps = 0 is a legitimate value (no regularisation): on small-magnitude inputs anything else shows
+                        key0 = {**key, "eps": 0.0}
+                        ctx.count(key0, bucket="RMSNorm")
+                        m0 = randomise(uu.RMSNorm(ns if len(ns) > 1 else ns[0], eps=0.0, elementwise_affine=affine))
+                        for xs_ in (x, x * 1e-4):
+                            k0 = {**key0, "input_scale": float(xs_.abs().max())}
+                            versus_functional("RMSNorm", k0, m0, xs_,
+                                              lambda z: U.rms_norm(z, normalized_shape=tuple(ns), weight=m0.weight, eps=0.0))
+                            if hasattr(nn, "RMSNorm"):
+                                versus_twin("RMSNorm", k0, m0, nn.RMSNorm(list(ns), eps=0.0, elementwise_affine=affine).to(dt), xs_, tol=2e-5)
         check_init("LayerNorm", {"module": "LayerNorm", "fresh": True}, lambda: uu.LayerNorm(8, elementwise_affine=True))
         check_init("RMSNorm", {"module": "RMSNorm", "fresh": True}, lambda: uu.RMSNorm(8, elementwise_affine=True))
         # ---------------- Embedding
